@@ -45,6 +45,11 @@ def trimPrefix (s p : Str) : Str := Str.trimPrefix p s
 /-- `strings.Trim(s, cutset)`. -/
 def trim (s cutset : Str) : Str := Str.trim (fun c => cutset.contains c) s
 
+/-- `strings.Contains(s, substr)`. -/
+def contains : Str → Str → Bool
+  | [], sub => sub.isEmpty
+  | c :: cs, sub => sub.isPrefixOf (c :: cs) || contains cs sub
+
 /-- `strings.TrimSpace(s)`. -/
 def trimSpace (s : Str) : Str := Str.trim Uni.isSpace s
 
